@@ -179,6 +179,12 @@ def verdict_accepts(cb, prog, wnames, idxpos, proofpos):
 
 
 def check(run, prefix="O15"):
+    from . import detectors as _DN
+    _DN.ob_new_fields(run, prefix + ".8", ['crypto::merkle', 'crypto::hash'], 'a tree or proof type that remembers anything between calls makes verification depend on call history')
+    from . import detectors as _DC
+    _DC.ob_narrowing_casts(run, prefix + ".7", ['crypto::merkle', 'crypto::hash'], "level offsets and lengths index the node array: a truncated offset makes create_proof hand out siblings of the wrong level for trees beyond the narrow type's range")
+    from . import detectors as _DS
+    _DS.ob_structural_impls(run, prefix + ".6", ['crypto::hash', 'crypto::merkle'], 'proof verification ends in `derived_root == root`: an equality that ignores part of the hash accepts altered roots')
     P = prefix
     prog = run.program("lib")
 
